@@ -76,6 +76,43 @@ fn op_coq(o: &Op) -> String {
     }
 }
 
+/// The same calls through the std traits the type implements (`Write::write_all`, `BufRead::fill_buf` +
+/// `BufRead::consume`): same meaning in the model, another part of the API surface (input field "via":"traits";
+/// such histories also start from `IOQueue::default()`).
+fn apply_via(q: &mut IOQueue, o: &Op, traits: bool) -> Ret {
+    use std::io::BufRead;
+    if traits {
+        match o {
+            // (write_all of an empty buffer never calls write: left to the direct call)
+            Op::Write(b) if !b.is_empty() => {
+                return match q.write_all(b) {
+                    Ok(()) => Ret::Num(b.len()),
+                    Err(_) => Ret::Num(usize::MAX),
+                }
+            }
+            Op::ConsumeWith(k, true) => {
+                let n = (*k).min(BufRead::fill_buf(q).map(|s| s.len()).unwrap_or(0));
+                BufRead::consume(q, n);
+                return Ret::Num(n);
+            }
+            Op::Consume(n) => {
+                BufRead::consume(q, *n);
+                return Ret::Unit;
+            }
+            _ => {}
+        }
+    }
+    apply(q, o)
+}
+
+fn new_queue(traits: bool) -> IOQueue {
+    if traits {
+        IOQueue::default()
+    } else {
+        IOQueue::new()
+    }
+}
+
 fn apply(q: &mut IOQueue, o: &Op) -> Ret {
     match o {
         Op::Write(b) => Ret::Num(q.write(b).unwrap_or(usize::MAX)),
@@ -116,8 +153,12 @@ pub fn run(input: &Value) -> Case {
     if input["big"].as_bool().unwrap_or(false) {
         return run_big(input);
     }
+    if input["seg"].as_bool().unwrap_or(false) {
+        return run_seg(input);
+    }
     let ops = parse_ops(&input["ops"]);
-    let mut q = IOQueue::new();
+    let traits = input["via"].as_str() == Some("traits");
+    let mut q = new_queue(traits);
     let mut obs_coq: Vec<String> = vec![];
     let mut obs_json: Vec<Value> = vec![];
     let mut panicked = false;
@@ -129,7 +170,7 @@ pub fn run(input: &Value) -> Case {
     for o in &ops {
         let before = (q.chunks_count(), q.len());
         let r = catch(AssertUnwindSafe(|| {
-            let r = apply(&mut q, o);
+            let r = apply_via(&mut q, o, traits);
             let slice = q.as_slice().to_vec();
             (r, q.len(), q.chunks_count(), q.is_empty(), slice)
         }));
@@ -186,6 +227,9 @@ pub fn run(input: &Value) -> Case {
     }
     if ops.iter().any(|o| matches!(o, Op::Write(b) if b.is_empty())) {
         tags.push("empty_write".into());
+    }
+    if traits {
+        tags.push("via_std_traits".into());
     }
     Case {
         coq: format!("Q {} {}", clist(ops.iter().map(op_coq)), clist(obs_coq)),
@@ -310,6 +354,304 @@ fn run_big(input: &Value) -> Case {
         ],
         nontrivial: partials_in_big >= 2,
     }
+}
+
+// ---------------------------------------------------------------------------------------------
+// Segment histories: every byte written is a function of its position in the stream of everything written
+// (`pat`), so a history of megabytes is described by lengths only and what comes out is reported as runs
+// (start, length) of stream positions.  TRUSTED: this function claims a run only after it has compared every
+// byte it got with the pattern over that run; the claim itself is "the head of what a FIFO still owes", kept as
+// a flat list of runs that follows the queue's own len() for raw consumes and drops.  A buffer that does not
+// match its claim is reported as a run starting at BAD, which neither the model nor the specification accepts.
+// input JSON: {"seg": true, "ops": [["w",len],["f"],["r",n],["c",amt],["cw",k,clamp],["ce"],["d"],["re"]]}
+
+const BAD: u64 = 1 << 62;
+
+#[inline]
+pub fn pat(i: u64) -> u8 {
+    (i.wrapping_mul(0x9E37_79B9_7F4A_7C15) >> 56) as u8
+}
+
+struct Live {
+    runs: std::collections::VecDeque<(u64, u64)>,
+    total: u64,
+}
+
+impl Live {
+    fn push(&mut self, a: u64, n: u64) {
+        if n == 0 {
+            return;
+        }
+        self.total += n;
+        if let Some(l) = self.runs.back_mut() {
+            if l.0 + l.1 == a {
+                l.1 += n;
+                return;
+            }
+        }
+        self.runs.push_back((a, n));
+    }
+    /// the first k bytes owed, as runs (None when fewer are owed)
+    fn head(&self, k: u64) -> Option<Vec<(u64, u64)>> {
+        if k > self.total {
+            return None;
+        }
+        let mut out = vec![];
+        let mut left = k;
+        for &(a, n) in &self.runs {
+            if left == 0 {
+                break;
+            }
+            let t = left.min(n);
+            out.push((a, t));
+            left -= t;
+        }
+        Some(out)
+    }
+    fn drop_front(&mut self, mut k: u64) {
+        k = k.min(self.total);
+        self.total -= k;
+        while k > 0 {
+            let f = self.runs.front_mut().unwrap();
+            if f.1 <= k {
+                k -= f.1;
+                self.runs.pop_front();
+            } else {
+                f.0 += k;
+                f.1 -= k;
+                k = 0;
+            }
+        }
+    }
+    fn drop_back(&mut self, mut k: u64) {
+        k = k.min(self.total);
+        self.total -= k;
+        while k > 0 {
+            let b = self.runs.back_mut().unwrap();
+            if b.1 <= k {
+                k -= b.1;
+                self.runs.pop_back();
+            } else {
+                b.1 -= k;
+                k = 0;
+            }
+        }
+    }
+    /// the runs `buf` is claimed to be, after comparing every byte with the pattern
+    fn claim(&self, buf: &[u8]) -> Vec<(u64, u64)> {
+        let bad = vec![(BAD, buf.len() as u64)];
+        let runs = match self.head(buf.len() as u64) {
+            Some(r) => r,
+            None => return bad,
+        };
+        let mut i = 0usize;
+        for &(a, n) in &runs {
+            for j in 0..n {
+                if buf[i] != pat(a + j) {
+                    return bad;
+                }
+                i += 1;
+            }
+        }
+        runs
+    }
+}
+
+fn cruns(r: &[(u64, u64)]) -> String {
+    clist(r.iter().map(|(a, n)| format!("({}, {})", a, n)))
+}
+
+fn jruns(r: &[(u64, u64)]) -> Value {
+    Value::Array(r.iter().map(|(a, n)| json!([a, n])).collect())
+}
+
+fn run_seg(input: &Value) -> Case {
+    let jops = input["ops"].as_array().cloned().unwrap_or_default();
+    let traits = input["via"].as_str() == Some("traits");
+    let mut q = new_queue(traits);
+    let mut live = Live { runs: Default::default(), total: 0 };
+    let mut wr = 0u64;
+    let mut ops_coq: Vec<String> = vec![];
+    let mut obs_coq: Vec<String> = vec![];
+    let mut obs_json: Vec<Value> = vec![];
+    let mut panicked = false;
+    let mut max_chunk = 0u64;
+    let mut stalled = false; // a call made no progress although data remained
+    for o in &jops {
+        let k = o[0].as_str().unwrap_or("");
+        let num = |i: usize| o[i].as_u64().unwrap_or(0);
+        let (op, coq) = match k {
+            "w" => {
+                let n = num(1);
+                max_chunk = max_chunk.max(n);
+                (Op::Write((wr..wr + n).map(pat).collect()), format!("SWr {}", n))
+            }
+            "f" => (Op::Flush, "SFl".to_string()),
+            "r" => (Op::Read(num(1) as usize), format!("SRd {}", num(1))),
+            "c" => (Op::Consume(num(1) as usize), format!("SCn {}", num(1))),
+            "cw" => {
+                let c = o[2].as_bool().unwrap_or(true);
+                (Op::ConsumeWith(num(1) as usize, c), format!("SCW {} {}", num(1), cbool(c)))
+            }
+            "ce" => (Op::ConsumeWithErr, "SCE".to_string()),
+            "d" => (Op::Drop, "SDr".to_string()),
+            "re" => (Op::ReadToEnd, "SRE".to_string()),
+            _ => continue,
+        };
+        ops_coq.push(coq);
+        if let Op::Write(b) = &op {
+            live.push(wr, b.len() as u64);
+            wr += b.len() as u64;
+        }
+        let r = catch(AssertUnwindSafe(|| {
+            let r = apply_via(&mut q, &op, traits);
+            let slice = q.as_slice().to_vec();
+            (r, q.len() as u64, q.chunks_count(), q.is_empty(), slice)
+        }));
+        match r {
+            None => {
+                obs_coq.push("SPn".into());
+                obs_json.push(json!("panic"));
+                panicked = true;
+                break;
+            }
+            Some((r, len, count, empty, slice_bytes)) => {
+                let (rc, rj) = match &r {
+                    Ret::Unit => {
+                        // raw consume / failing consumer / drop: what went is read off len()
+                        let gone = live.total.saturating_sub(len);
+                        if matches!(op, Op::Drop) {
+                            live.drop_back(gone);
+                        } else if !matches!(op, Op::Flush) {
+                            live.drop_front(gone);
+                        }
+                        ("SU".to_string(), json!(null))
+                    }
+                    Ret::Bytes(b) => {
+                        let runs = live.claim(b);
+                        live.drop_front(b.len() as u64);
+                        if b.is_empty() && len > 0 && !matches!(op, Op::Read(0)) {
+                            stalled = true;
+                        }
+                        (format!("(SRuns {})", cruns(&runs)), jruns(&runs))
+                    }
+                    Ret::Num(n) => {
+                        if !matches!(op, Op::Write(_)) {
+                            // (a consumer may answer more than the slice held: what went is read off len())
+                            live.drop_front(live.total.saturating_sub(len));
+                        }
+                        (format!("(SNum {})", *n as u64 & MASK63), json!(n))
+                    }
+                };
+                let slice = live.claim(&slice_bytes);
+                if slice_bytes.is_empty() && len > 0 {
+                    stalled = true;
+                }
+                obs_coq.push(format!("SOb {} {} {} {} {}", rc, len, count, cbool(empty), cruns(&slice)));
+                obs_json.push(json!({"ret": rj, "len": len, "count": count, "empty": empty, "slice": jruns(&slice)}));
+            }
+        }
+    }
+    let mut j = input.clone();
+    j["impl"] = Value::Array(obs_json);
+    let size_tag = match max_chunk {
+        0..=4096 => "<=4K",
+        4097..=65535 => "4K-64K",
+        65536..=1048575 => "64K-1M",
+        _ => ">=1M",
+    };
+    let mut tags = vec!["seg".to_string(), format!("seg.max_write={}", size_tag), format!("panic={}", panicked)];
+    if traits {
+        tags.push("via_std_traits".into());
+    }
+    if let Some(b) = input["boundary"].as_u64() {
+        tags.push("seg.source_boundary".into());
+        let _ = b;
+    }
+    if stalled {
+        tags.push("seg.no_progress_while_data_remains".into());
+    }
+    Case { coq: format!("QS {} {}", clist(ops_coq), clist(obs_coq)), json: j, tags, nontrivial: jops.len() >= 5 && wr > 0 }
+}
+
+/// Histories aimed at the integer constants of the current source (util::source_literals, read at run time): a
+/// single chunk of v-1, v, v+1, v + a few, 2v, 2v+1 bytes, consumed up to the offsets v-1, v, v+1 in one piece or in
+/// several, by consume_with / consume / read, then small reads, a further write, a drop, and a drain.  A threshold
+/// that a change introduces (a cap on slices, a compaction limit) is reached without anybody naming it.
+pub fn gen_boundary_histories(rng: &mut Rng, per_literal: usize) -> Vec<Value> {
+    let mut out = vec![];
+    let lits: Vec<u64> = source_literals(&["src/common.rs", "src/unix.rs"]).into_iter().filter(|&v| (2..=(1u64 << 26)).contains(&v)).collect();
+    for &v in &lits {
+        for variant in 0..per_literal {
+            let l = match (variant + rng.below(2) as usize * 3) % 6 {
+                0 => v + 1 + rng.below(9),
+                1 => 2 * v,
+                2 => v + 1,
+                3 => v,
+                4 => 2 * v + 1,
+                _ => v - 1,
+            };
+            let off = [v, v - 1, v + 1][(variant + rng.below(3) as usize) % 3].min(l);
+            let mut ops: Vec<Value> = vec![json!(["w", l]), json!(["f"]), json!(["w", 7])];
+            if rng.chance(1, 2) {
+                ops.push(json!(["f"]));
+            }
+            // get to the offset
+            let pieces: Vec<u64> = match rng.below(4) {
+                0 => vec![off],
+                1 => vec![off.saturating_sub(1), 1.min(off)],
+                2 => vec![off / 2, off - off / 2],
+                _ => vec![1.min(off), off.saturating_sub(1)],
+            };
+            for p in pieces {
+                match rng.below(3) {
+                    0 => ops.push(json!(["cw", p, true])),
+                    1 => ops.push(json!(["c", p])),
+                    _ => ops.push(json!(["r", p])),
+                }
+            }
+            ops.push(json!(["r", 3]));
+            ops.push(json!(["cw", 2, true]));
+            ops.push(json!(["c", 1]));
+            ops.push(json!(["w", 5]));
+            if rng.chance(1, 3) {
+                ops.push(json!(["d"]));
+            }
+            ops.push(json!(["r", 1 + rng.below(64)]));
+            ops.push(json!(["re"]));
+            out.push(json!({"seg": true, "boundary": v, "ops": ops}));
+        }
+    }
+    out
+}
+
+/// random segment histories; sizes are drawn from the source boundaries as well as at random
+pub fn gen_seg(rng: &mut Rng, bounds: &[u64]) -> Value {
+    let size = |rng: &mut Rng| -> u64 {
+        match rng.below(6) {
+            0 | 1 if !bounds.is_empty() => *rng.pick(bounds),
+            2 => rng.below(8),
+            3 => 1 + rng.below(300),
+            4 => 1000 + rng.below(70000),
+            _ => 1 + rng.below(5000),
+        }
+    };
+    let mut ops: Vec<Value> = vec![];
+    for _ in 0..(4 + rng.below(24)) {
+        match rng.below(20) {
+            0..=5 => ops.push(json!(["w", size(rng)])),
+            6..=8 => ops.push(json!(["f"])),
+            9..=11 => ops.push(json!(["r", size(rng)])),
+            12..=14 => ops.push(json!(["cw", size(rng), true])),
+            15 => ops.push(json!(["cw", rng.below(4), false])),
+            16 => ops.push(json!(["c", rng.below(3)])),
+            17 => ops.push(json!(["ce"])),
+            18 => ops.push(json!(["d"])),
+            _ => ops.push(json!(["re"])),
+        }
+    }
+    ops.push(json!(["re"]));
+    json!({"seg": true, "ops": ops})
 }
 
 /// sizes on both sides of thresholds a maintainer might introduce
@@ -530,9 +872,24 @@ pub fn generate(rng: &mut Rng, n: usize, _tier: &str) -> Vec<Value> {
         }
         bigs.push(b);
     }
-    while v.len() < n {
+    // segment histories: aimed at every integer constant of the current source, and random ones
+    let boundary = gen_boundary_histories(rng, if _tier == "thorough" { 6 } else { 3 });
+    let bounds: Vec<u64> = source_boundaries(&["src/common.rs", "src/unix.rs"], 1 << 21).into_iter().filter(|&b| b > 0).collect();
+    let nseg = if _tier == "thorough" { n / 20 } else { 60 };
+    let extra: Vec<Value> = boundary.into_iter().chain((0..nseg).map(|_| gen_seg(rng, &bounds))).collect();
+    while v.len() + extra.len() < n {
         let ops = gen_ops(rng);
-        v.push(json!({ "ops": ops_json(&ops) }));
+        if rng.chance(1, 4) {
+            v.push(json!({ "ops": ops_json(&ops), "via": "traits" }));
+        } else {
+            v.push(json!({ "ops": ops_json(&ops) }));
+        }
+    }
+    for (i, mut e) in extra.into_iter().enumerate() {
+        if i % 2 == 1 {
+            e["via"] = json!("traits");
+        }
+        v.push(e);
     }
     // spread the big ones over the shards
     let step = (v.len() / nbig.max(1)).max(1);
@@ -551,6 +908,6 @@ pub fn batch(inputs: &[Value]) -> Batch {
         report_fn: "c16_report",
         rule: "history with >=2 non-empty writes and >=1 flush that reaches >=2 chunks and either leaves the front chunk partly consumed or drops pending chunks; distinct by input",
         cases: inputs.iter().map(run).collect(),
-        preamble: "From Coq Require Import Uint63.\nLocal Open Scope N_scope.\n".to_string(),
+        preamble: "From Coq Require Import Uint63.\nFrom SNT Require Import IO.SegQueue.\nLocal Open Scope N_scope.\n".to_string(),
     }
 }
